@@ -1067,7 +1067,7 @@ def c08(tier, replay=None):
         'Part 3 (MigGraph.tla): %d upgrades whose tasks are split into several batches (an app\'s pending '
         'evolutions ordered around another app\'s evolutions or around migrations, incl. evolutions without '
         'SQL): every pending evolution\'s own statements run exactly once and it is recorded exactly once.  ' % nsplit +
-        'Part 2 (Ledger.tla): upgrade runs interleaved with mark-evolution-applied [--all] and wipe-evolution '
+        'Part 2 (Ledger.tla): upgrade runs - completing, rejected, idle, or failing at their first evolution statement (fault) - interleaved with mark-evolution-applied [--all] and wipe-evolution '
         '[--app-label] over two apps sharing labels; TLC checks ExecutedAtMostOnce, RecordedAtMostOnce, '
         'RecordedNeverExecutedAgain, OnlyCompletedRunsRecord, FreshRecordsWithoutExecuting over every operation '
         'sequence; %d sequences replayed through the real commands, the outcome of every run / command and the '
@@ -1094,6 +1094,7 @@ CONSTANTS
   MaxVer = 2
   MaxOps = %d
   EmitRecords = TRUE
+  WithFaults = TRUE
 CONSTRAINT Constraint
 INVARIANT ExecutedAtMostOnce
 INVARIANT RecordedAtMostOnce
@@ -1113,7 +1114,7 @@ PROPERTY LimitedRunTouchesOnlyItsApp
             # at least one run before and one run after a repair command
             runs_ = [o for o in ops if o in ('run', 'runonly')]
             if runs_ and ops[-1] in ('run', 'runonly') and (
-                    any(o in ('mark', 'markall', 'wipe') for o in ops) or 'runonly' in ops):
+                    any(o in ('mark', 'markall', 'wipe', 'runfail') for o in ops) or 'runonly' in ops):
                 full.append(r)
     rng = random.Random(seed() * 389 + 8)
     rng.shuffle(full)
@@ -1149,7 +1150,10 @@ PROPERTY LimitedRunTouchesOnlyItsApp
                       'observed': {k: st.get(k) for k in ('outcome', 'ok', 'executed', 'rows', 'error')},
                       'expected_rows': exp['rec'], 'expected_op': eop}
             fp = {'part': 'ledger', 'op': st['op']['op']}
-            if st['op']['op'] in ('run', 'runonly'):
+            if st['op']['op'] == 'runfail' and not st.get('fault_fired'):
+                report.notes.append('ledger: planned fault did not fire in %s' % label)
+                break
+            if st['op']['op'] in ('run', 'runonly', 'runfail'):
                 if st['outcome'] != eop['outcome']:
                     report.fail(dict(fp, **{'class': 'run-outcome-differs', 'observed': st['outcome'],
                                             'expected': eop['outcome']}), detail)
@@ -3192,6 +3196,7 @@ CONSTANTS
   GLen = %d
   MaxDecl = 2
   EmitRecords = TRUE
+  SplitOnly = TRUE
 CONSTRAINT Constraint
 INVARIANT ChainsAloneSatisfiable
 ''' % MG.GLEN)
@@ -3255,6 +3260,7 @@ CONSTANTS
   GLen = %d
   MaxDecl = %d
   EmitRecords = TRUE
+  SplitOnly = FALSE
 CONSTRAINT Constraint
 INVARIANT ChainsAloneSatisfiable
 ''' % (MG.GLEN, maxdecl))
